@@ -182,4 +182,19 @@ CHECKS = {
              "shards": {"quick": 6, "thorough": 16}, "timeout": {"quick": 600, "thorough": 7200}},
         ],
     },
+    "C13": {
+        "rule": ("batches of 2-24 concurrent connections through ListenerWrapper.WrapListener over a loopback listener (public API only); the first byte of a stream selects its fate: "
+                 "terminal echo route, matcher error, matching timeout (silent client), fall-through after 1 / 3000 / 8192 / 600 prefetched bytes with 0 / 5 / 2000 / all of them "
+                 "consumed by a non-terminal handler, no route matches, TLS-terminated then falling through; streams up to ~20 KiB, segmented or not; the Accept consumer pauses "
+                 "0-6 ms between accepts and may start 10-80 ms late (hand-over channel exceeded); the listener is closed at the end or after 0-60 ms (connections in flight). "
+                 "Oracle: per connection delivered exactly once with exactly its unconsumed stream (TLS: plaintext and ConnectionState) or never delivered and closed; Accept "
+                 "reports net.ErrClosed after Close and keeps doing so; no goroutine with a layer4.(*listener) frame after 5 s. Non-trivial = >= 2 outcome kinds with a "
+                 "fall-through that carried prefetched bytes."),
+        "assumptions": ["after an early close a pending connection may either be delivered once or be closed", "timing is only used as a bound on waiting, never as a verdict on its own"],
+        "min_classes": {"quick": {"C13/early-close": 20, "C13/slow-consumer": 40, "C13/delivered": 400}},
+        "runs": [
+            {"name": "wrapper", "pkg": "./c13", "run": ".", "rapid_checks": {"quick": 40, "thorough": 2500},
+             "shards": {"quick": 4, "thorough": 16}, "timeout": {"quick": 600, "thorough": 7200}},
+        ],
+    },
 }
